@@ -41,8 +41,37 @@ structure DState where
   raw : R.Raw Nat Nat := R.Raw.new
   rawKind : Nat := 0
   rawDbg : Bool := false
+  /-- abstract reply mode: handles are printed as canonical diagrams (indices renumbered in visit
+  order) plus the first equal handle; state snapshots are suppressed -/
+  abs : Bool := false
 
 def showRef (r : Ref) : String := toString r.idx ++ ":" ++ (if r.neg then "1" else "0")
+
+/-- canonical serialisation of the diagram below a handle: decision nodes are numbered in the order of
+first visit (then-branch first), so the string does not depend on where nodes are stored -/
+def canonRef : Nat → St → Ref → List Nat → String × List Nat
+  | 0, _, _, vis => ("?", vis)
+  | fuel + 1, s, r, vis =>
+    if r == Ref.one then ("1", vis) else
+    if r == Ref.zero then ("0", vis) else
+    let sign := if r.neg then "~" else ""
+    if r.idx = 0 ∨ r.idx ≥ s.storage.vals.size then ("?", vis) else
+    match vis.idxOf? r.idx with
+    | some k => (sign ++ "#" ++ toString k, vis)
+    | none =>
+      let k := vis.length
+      let p1 := canonRef fuel s (s.high r.idx) (vis ++ [r.idx])
+      let p2 := canonRef fuel s (s.low r.idx) p1.2
+      (sign ++ "n" ++ toString k ++ "(x" ++ toString (s.var r) ++ "," ++ p1.1 ++ "," ++ p2.1 ++ ")", p2.2)
+
+/-- index of the first named handle equal to `r` -/
+def firstEq (env : Array Ref) (r : Ref) : Nat :=
+  match env.toList.idxOf? r with
+  | some k => k
+  | none => env.size
+
+def showHandle (abs : Bool) (s : St) (env : Array Ref) (r : Ref) : String :=
+  if abs then (canonRef 100000 s r []).1 ++ " =h" ++ toString (firstEq env r) else showRef r
 
 def fnv1a (s : String) : UInt64 :=
   s.toUTF8.foldl (fun h b => (h ^^^ b.toUInt64) * 0x100000001b3) 0xcbf29ce484222325
@@ -179,11 +208,12 @@ def step (d : DState) (line : String) : DState × String :=
   let bad : DState × String := (d, "bad-op")
   let pushRes (s : St) (x : Res (St × Ref)) : DState × String :=
     match x with
-    | .ok (s', r) => ({ d with st := some s', env := d.env.push r }, "r " ++ showRef r)
+    | .ok (s', r) => ({ d with st := some s', env := d.env.push r }, "r " ++ showHandle d.abs s' (d.env.push r) r)
     | .error (e, s') => ({ d with st := some s', env := d.env.push Ref.zero }, "panic " ++ e.toString)
     -- (on a panic the harness binds the name to the constant false, like the driver)
   let _ := s!"{bad.2}"
   match toks with
+  | ["mode", m] => ({ d with abs := m == "abstract" }, "ok")
   | ["new", sb, bb, cb] =>
     match sb.toNat?, bb.toNat?, cb.toNat? with
     | some sb, some bb, some cb =>
@@ -368,7 +398,8 @@ def step (d : DState) (line : String) : DState × String :=
     match H f, v.toNat? with
     | some f, some v =>
       match topCofactors s f v with
-      | .ok (a, b) => ({ d with env := (d.env.push a).push b }, "r " ++ showRef a ++ " " ++ showRef b)
+      | .ok (a, b) => ({ d with env := (d.env.push a).push b },
+          "r " ++ showHandle d.abs s (d.env.push a) a ++ " " ++ showHandle d.abs s ((d.env.push a).push b) b)
       | .error e => ({ d with env := (d.env.push Ref.zero).push Ref.zero }, "panic " ++ e.toString)
     | _, _ => bad
   | ["itec", a, b, c] =>
@@ -406,7 +437,7 @@ def step (d : DState) (line : String) : DState × String :=
     | none => bad
   | "desc" :: rs =>
     match Hs rs with
-    | some rs => (d, showNatList (sortNat (descendants s rs)))
+    | some rs => (d, if d.abs then toString (descendants s rs).length else showNatList (sortNat (descendants s rs)))
     | none => bad
   | "gc" :: rs =>
     match Hs rs with
@@ -415,14 +446,18 @@ def step (d : DState) (line : String) : DState × String :=
       | .ok s' => ({ d with st := some s' }, "ok")
       | .error (e, s') => ({ d with st := some s' }, "panic " ++ e.toString)
     | none => bad
-  | ["bracket", f] => match H f with | some f => (d, toBracketString FUEL s f) | none => bad
+  | ["bracket", f] =>
+    match H f with
+    | some f => (d, if d.abs then (canonRef 100000 s f []).1 else toBracketString FUEL s f)
+    | none => bad
   | "dot" :: rs =>
     match Hs rs with
     | some rs => (d, match renderDot s rs with
-        | .ok ls => "\\n".intercalate ls | .error e => "panic " ++ e.toString)
+        | .ok ls => if d.abs then "dot " ++ toString ((descendants s rs).length) else "\\n".intercalate ls
+        | .error e => "panic " ++ e.toString)
     | none => bad
-  | ["dump"] => (d, stSnapshot s)
-  | ["digest"] => (d, toString (fnv1a (stSnapshot s)).toNat)
+  | ["dump"] => (d, if d.abs then "-" else stSnapshot s)
+  | ["digest"] => (d, if d.abs then "-" else toString (fnv1a (stSnapshot s)).toNat)
   | _ => bad
 
 partial def loop (hin : IO.FS.Stream) (hout : IO.FS.Stream) (d : DState) : IO Unit := do
